@@ -542,6 +542,62 @@ theorem accepted_trace_pops_are_min (pre post : List QEv) (root mon : Nat)
       · simp at h
     · simp at h
 
+/-- `TaskQueue` histories **with workers**: any adder pushes, any worker `w` takes from the root its
+    pop happens to serve; the log records for every take the worker, the root, the item taken and
+    what was queued for that root at that moment (newest first) -/
+inductive ReachableW : TQ → List (Nat × Nat × Item × List Item) → Prop where
+  | empty : ReachableW [] []
+  | push {t log} (root val : Nat) (prio : Int) : ReachableW t log → ReachableW (t.push root val prio) log
+  | take {t t' log} (w root : Nat) (m : Item) : ReachableW t log → t.pop root = some (m, t') →
+      ReachableW t' ((w, root, m, (t.get root).items) :: log)
+
+theorem reachableW_forget {t : TQ} {log : List (Nat × Nat × Item × List Item)} (h : ReachableW t log) :
+    ReachableTQ t := by
+  induction h with
+  | empty => exact .empty
+  | push root val prio _ ih => exact .push root val prio ih
+  | take w root m _ hp ih => exact .pop ih hp
+
+/-- **Whichever worker takes an event, it takes the least one of that cascade**: for every take in
+    every history — any number of workers, any interleaving with pushes and with takes of other
+    workers — the item taken was queued for its root, nothing queued for that root preceded it,
+    and every other item queued for that root comes strictly after it. -/
+theorem every_worker_takes_the_least {t : TQ} {log : List (Nat × Nat × Item × List Item)}
+    (h : ReachableW t log) :
+    ∀ w root m queued, (w, root, m, queued) ∈ log →
+      m ∈ queued ∧
+      (∀ x ∈ queued, ¬ x.prio < m.prio ∧ ¬ (x.prio = m.prio ∧ x.seq < m.seq)) ∧
+      (∀ x ∈ queued, x ≠ m → m.prio < x.prio ∨ (m.prio = x.prio ∧ m.seq < x.seq)) := by
+  induction h with
+  | empty => intro w root m queued hm; simp at hm
+  | push root val prio _ ih => exact ih
+  | @take t t' log w0 root0 m0 hprev hp ih =>
+    intro w root m queued hm
+    rcases List.mem_cons.mp hm with heq | hm
+    · cases heq
+      have hr := reachableW_forget hprev
+      obtain ⟨h1, h2, h3, _⟩ := several_workers_pop_is_min hr hp
+      refine ⟨h1, h2, ?_⟩
+      intro x hx hne
+      apply h3
+      -- what is left for the root is the queue without the item taken
+      unfold TQ.pop at hp
+      split at hp
+      · cases hp
+      · rename_i m' q' hpop
+        cases hp
+        rw [tq_get_set_same]
+        obtain ⟨_, _, he, _⟩ := pop_is_min _ _ _ hpop
+        rw [he]
+        have hnd : (t.get root0).items.Nodup :=
+          (reachable_wf (reachableTQ_get hr root0)).1.imp (by intro a b hab e; subst e; omega)
+        exact hnd.mem_erase_iff.mpr ⟨hne, hx⟩
+    · exact ih w root m queued hm
+
+/-- non-vacuity: worker 7 takes from root 1 while priority 3 (queued first) and 0 are queued: it gets the 0 -/
+example : ∃ t log, ReachableW t log ∧ log.map (fun e => (e.1, e.2.2.1.val)) = [(7, 11)] :=
+  ⟨_, _, .take 7 1 _ (.push 1 11 0 (.push 1 10 3 .empty)) rfl, rfl⟩
+
 /-! ### the validator for runs with free tie order -/
 
 /-- **The validator accepts exactly the runs of the rule loop under some admissible sort** (rules
